@@ -46,12 +46,13 @@ var zooTypes = []reflect.Type{
 	reflect.TypeOf(za.Inner{}), reflect.TypeOf(zb.Inner{}), reflect.TypeOf(za.Item{}), reflect.TypeOf(zb.Item{}),
 	reflect.TypeOf(za.Extra{}), reflect.TypeOf(zb.Extra{}), reflect.TypeOf(za.Node{}), reflect.TypeOf(zb.Node{}),
 	reflect.TypeOf(za.Pair{}), reflect.TypeOf(zb.Pair{}), reflect.TypeOf(za.Embeds{}), reflect.TypeOf(za.Uniq{}),
-	reflect.TypeOf(anon1{}), reflect.TypeOf(anon2{}), reflect.TypeOf(anon3{}),
+	reflect.TypeOf(anon1{}), reflect.TypeOf(anon2{}), reflect.TypeOf(anon3{}), reflect.TypeOf(za.Deep{}),
 }
 
 var structOfFieldTypes = []reflect.Type{
 	reflect.TypeOf(0), reflect.TypeOf(""), reflect.TypeOf(1.5), reflect.TypeOf(true), reflect.TypeOf([]int(nil)), reflect.TypeOf([]string(nil)),
 	reflect.TypeOf(za.Inner{}), reflect.TypeOf(zb.Inner{}), reflect.TypeOf(&za.Item{}), reflect.TypeOf(zb.Item{}), reflect.TypeOf(map[string]int(nil)), reflect.TypeOf(int64(0)),
+	reflect.TypeOf(map[string]za.Inner(nil)), reflect.TypeOf([]zb.Inner(nil)), reflect.TypeOf([2]za.Inner{}), reflect.TypeOf(map[string][]int(nil)), reflect.TypeOf(float32(0)), reflect.TypeOf(uint16(0)),
 }
 
 // drawStructOf builds an anonymous struct type with a seeded field list (the only way to quantify
@@ -378,7 +379,7 @@ func (o *op16) run(r *alt.Recomposer) (res res16) {
 	v := o.Value.Interface()
 	target := reflect.New(o.Type)
 	var err error
-	opt := ojg.Options{CreateKey: "type", OmitNil: true}
+	opt := ojg.Options{CreateKey: "type"}
 	switch o.Route {
 	case routeAlt:
 		d := alt.Decompose(v, &opt)
